@@ -150,6 +150,21 @@ def apply(c, m, ops, pa, trace):
             cp = c.copy()
             if not (c == cp and cp == c and not (c != cp) and c == c):
                 return c, m, "equality is reflexive / symmetric on a copy"
+            # equality is on (annotators, units): annotators without units count, and so does every field of a unit
+            e1, e2 = c.copy(), c.copy()
+            e1.add_annotator("zz_empty_1")
+            e2.add_annotator("zz_empty_2")
+            if (c == e1) or not (c != e1) or (e1 == c) or (e1 == e2) or not (e1 != e2):
+                return c, m, "continua whose annotator sets differ (by an annotator without units) are not equal"
+            for a in sorted(m.u):
+                if m.u[a]:
+                    u = sorted(m.u[a], key=key)[0]
+                    v = c.copy()
+                    v.remove(a, pa.continuum.Unit(Segment(u[0], u[1]), u[2]))
+                    v.add(a, Segment(u[0], u[1]), "zz_other" if u[2] != "zz_other" else "zz_else")
+                    if (c == v) or (v == c) or not (c != v):
+                        return c, m, "continua differing by the label of one unit are not equal"
+                    break
         rv, mv = real_view(c), m.view()
         for k in mv:
             if rv[k] != mv[k] and not (k == "bounds" and all(abs(x - y) < 1e-9 for x, y in zip(rv[k], mv[k]))):
